@@ -88,7 +88,11 @@ func ruleTrivialRecordTrait(c *core.Ctx) {
 		c.Undecided(rule, "anchor/emitter of IsTriviallySerializable<Record>", 0, "no function of internal/cpp/binary emits the record trait")
 		return
 	}
-	rows := rowsOf[d]
+	// helpers of the package that emit parts of the trait are read in place
+	rows, _ := flatRows(c, "internal/cpp/binary", d.Name.Name)
+	if len(rows) == 0 {
+		rows = rowsOf[d]
+	}
 	const fields = "RecordDefinition.Fields"
 	allowed := []string{"type(TypeDefinition)∈{RecordDefinition}", "len(RecordDefinition.Fields) > 0", "len(RecordDefinition.Fields) != 0", "!(len(RecordDefinition.Fields) == 0)"}
 	var layout, perField, sizeHdr, sizeTerm, plus *gee.Row
@@ -129,7 +133,7 @@ func ruleTrivialRecordTrait(c *core.Ctx) {
 	chk("no padding: sum over every field", sizeTerm, true, "the right-hand side of the size comparison is not the sum of sizeof(field) over all fields: interior padding is not excluded")
 	if sizeTerm != nil && sizeHdr != nil {
 		okSum := plus != nil && sizeHdr.Seq < sizeTerm.Seq
-		okArg := len(sizeTerm.Args) == 1 && strings.Contains(sizeTerm.Args[0], "Field.Name")
+		okArg := len(sizeTerm.Args) == 1 && (strings.Contains(sizeTerm.Args[0], "Field.Name") || (strings.Contains(sizeTerm.Args[0], fields+"[") && strings.Contains(sizeTerm.Args[0], "].Name")))
 		c.Check(okSum && okArg, rule, "record trait/no padding: terms joined by +", sizeTerm.Pos, "sizeof(T) == (sizeof(f1) + … + sizeof(fn)) over the loop's field", "the size terms are not the loop's fields joined by `+` after the `sizeof(T) ==` header")
 	}
 }
